@@ -163,7 +163,7 @@ def run(ctx):
             # coverage by LENGTH (edge coverage stays at its default 1): a constraint relaxed this way may be satisfied
             # without containing all of its edges -- those edges must nevertheless be covered
             for e in G.edges():
-                G.edges[e]["len"] = rng.choice([1, 1, 5, 5, 2, 0])
+                G.edges[e]["len"] = rng.choice([1, 1, 5, 5, 2, 0, 0])
             lengths = {e: G.edges[e]["len"] for e in G.edges()}
             cov = rng.choice([0.5, 0.8, 0.75])
             extra = {"length_attr": "len", "subpath_constraints_coverage_length": cov}
@@ -225,22 +225,33 @@ def run(ctx):
         if not cons:
             continue
         cov = rng.choice([0.5, 0.5, 0.75, 1.0])
-        rep = {"edges": [[u, v, d] for u, v, d in G.edges(data=True)], "constraints": cons, "coverage": cov}
+        lengths = None; covkw = {"subpath_constraints_coverage": cov}
+        if rng.random() < 0.4:
+            # coverage by length with zero-length edges inside the constraints (an explicit length 0 is a length, not "missing")
+            for e in G.edges():
+                G.edges[e]["len"] = rng.choice([0, 0, 5, 5, 1])
+            lengths = {e: G.edges[e]["len"] for e in G.edges()}
+            cov = rng.choice([0.55, 0.6, 0.8])
+            covkw = {"subpath_constraints_coverage_length": cov, "length_attr": "len"}
+            cons = [c for c in cons if sum(lengths[e] for e in c) > 0]
+            if not cons:
+                continue
+        rep = {"edges": [[u, v, d] for u, v, d in G.edges(data=True)], "constraints": cons, "coverage": cov, "by_length": lengths is not None}
         res = {}
         for greedy in (True, False):
             try:
                 m = fp.MinFlowDecomp(G, flow_attr="flow", weight_type=int if is_int else float, subpath_constraints=cons,
-                                     subpath_constraints_coverage=cov, optimization_options={"optimize_with_greedy": greedy},
-                                     solver_options={"threads": zoo.THREADS})
+                                     optimization_options={"optimize_with_greedy": greedy},
+                                     solver_options={"threads": zoo.THREADS}, **covkw)
                 m.solve()
             except Exception as e:
                 ctx.report(f"MinFlowDecomp raised {e!r}", rep); res = None; break
             if not m.is_solved():
                 ctx.report("MinFlowDecomp not solved (constraints are realisable by zero-weight paths)", rep); res = None; break
             sol = m.get_solution()
-            why = props.constraint_covered(cons, sol["paths"], coverage=cov)
+            why = props.constraint_covered(cons, sol["paths"], coverage=cov, lengths=lengths)
             if why:
-                ctx.report(f"MinFlowDecomp (greedy={greedy}): {why} (coverage {cov})", dict(rep, solution=sol["paths"])); res = None; break
+                ctx.report(f"MinFlowDecomp (greedy={greedy}): {why} (coverage {cov}{' by length' if lengths else ''})", dict(rep, solution=sol["paths"])); res = None; break
             res[greedy] = len(sol["paths"])
         ctx.case(["advfd", rep], nontrivial=True); ctx.count("E2_greedy_vs_milp_constraints", "cases")
         if res and res[True] != res[False]:
